@@ -89,9 +89,15 @@ def run_model(m, workers, seed):
         invs="\n".join("INVARIANT " + i for i in m["invs"]),
         deadlock="FALSE" if m["simulate"] else "TRUE",
     )
-    if m["simulate"]:
-        return tlc.run_tlc("Reweight", cfg, workers=workers, simulate=m["simulate"], depth=80, seed=seed + 5)
-    return tlc.run_tlc("Reweight", cfg, workers=workers, dump=(m["mut"] == "none"), coverage=(m["mut"] == "none"))
+    for attempt in (1, 2):  # a TLC machinery failure (never a verdict) is retried once, then exits 2
+        try:
+            if m["simulate"]:
+                return tlc.run_tlc("Reweight", cfg, workers=workers, simulate=m["simulate"], depth=80, seed=seed + 5)
+            return tlc.run_tlc("Reweight", cfg, workers=workers, dump=(m["mut"] == "none"), coverage=(m["mut"] == "none"))
+        except tlc.TLCFailure as ex:
+            if attempt == 2:
+                raise
+            print(f"[C05] TLC machinery failure on model {m['name']}, retrying once: {str(ex)[:300]}", file=sys.stderr, flush=True)
 
 
 # --------------------------------------------------------------------------------------------------
@@ -390,7 +396,7 @@ def stub_family(ck, np, Reweighter, StateManager, cov):
 # --------------------------------------------------------------------------------------------------
 # real histories, no stubs
 def real_history_family(ck, np, Reweighter, StateManager, ess_fn, cov):
-    n_runs = 48 if ck.tier == "quick" else 600
+    n_runs = 48 if ck.tier == "quick" else 300
 
     def report(key, what, ctx):
         ck.violation(key, what, ctx)
@@ -620,19 +626,40 @@ def replay(ck, path):
     sys.exit(1 if bad else 0)
 
 
+SUMMED = ("states", "transitions", "traces_validated_against_impl", "evaluations", "distinct_nontrivial")
+
+
+def merge_coverage(cov, extra, label):
+    """Fold the numbers of another layer into `cov`: the headline counters are summed, the rest is kept under `label`."""
+    extra = dict(extra)
+    for k in SUMMED:
+        cov[k] = cov.get(k, 0) + extra.pop(k, 0)
+    cov[label] = extra
+    return cov
+
+
 def main():
     ck = core.Check("C05", "model_checking")
     if ck.args.replay:
         replay(ck, ck.args.replay)
     cov = component_part(ck)
-    # ---- SYSTEM LAYER goes here:  sys_cov = system_part(ck)  (recorded whole-run traces validated against
-    # ---- PSRun.tla); merge its numbers into `cov` (sum states / transitions / traces_validated_against_impl /
-    # ---- evaluations / distinct_nontrivial, keep the rest under a "system" key) before ck.finish.
+    # ---------------------------------------------------------------------------------------------
+    # SYSTEM LAYER goes here (recorded whole-run traces validated against PSRun.tla / PSRunTrace.tla):
+    #     merge_coverage(cov, system_part(ck), "system")
+    # `system_part(ck) -> dict` reports violations through ck.violation(...) like component_part does.
+    # ---------------------------------------------------------------------------------------------
     ck.assumptions += [
         "binary64 arithmetic: sums and halves of dyadic temperatures k/2^F (F <= 18) are exact",
         "the metric is a deterministic function of (history, beta): re-evaluation at a temperature returns the same value (the memo of the specification)",
         "stub family: ESS_TOLERANCE = 0.01; classes 'below'/'above' are >= 50% away from the target, '*_in' classes within 0.3%",
         "that compute_logw_and_logz / effective_sample_size compute the right formula is decided by C04 / C20, not here",
+    ]
+    cov["notes"] = [
+        "ESS mode: TLC invariant EssBisectionDegenerate - _find_beta_bisection is entered in ESS mode only when ESS(beta_prev) is NaN "
+        "(bracket [beta_prev, beta_prev], returns beta_prev at once); for every oracle without NaN the three-way decision always "
+        "takes 'stay' or 'use the ESS limit', so the 1% metric band and the beta-tolerance stop of the bisection never decide an "
+        "ESS-mode advance and 'ESS >= target after an advance' holds strictly, for monotone and non-monotone oracles alike",
+        "real-history family: real_metric_bisections_ess counts calls of _find_beta_bisection in ESS mode on real histories",
     ]
     cov.update({
         "rule": "a behaviour = (mode, beta_prev, oracle memo) enumerated by TLC (lazy oracle: every distinct run of the search "
